@@ -340,12 +340,12 @@ fn gen_bits(r: &mut Rng, out: &mut dyn Write) {
     writeln!(out, "bits {} {}", if d.is_empty() { "-".to_string() } else { hex(&d) }, ops.join(" ")).unwrap();
 }
 
-/// every bit string of 0..=nbytes bytes (nbytes <= 2 exhaustively; 3 bytes: every 5th value) x every position
+/// every bit string of 0..=nbytes bytes (nbytes <= 2 exhaustively; 3 bytes: every 41st value) x every position
 /// reached by u<k> x {more, finish, seifinish, ue, se}
 fn gen_bits_exhaustive(nbytes: usize, out: &mut dyn Write) {
     for len in 0..=nbytes {
         let total: u64 = 1u64 << (8 * len);
-        let step = if len >= 3 { 5 } else { 1 };
+        let step = if len >= 3 { 41 } else { 1 };
         let mut v = 0u64;
         while v < total {
             let d: Vec<u8> = (0..len).map(|i| (v >> (8 * (len - 1 - i))) as u8).collect();
